@@ -785,3 +785,64 @@ Proof.
   apply IH; [assumption|]. apply qinv_step; [|assumption].
   apply orb_true_iff in H1. destruct H1 as [H1|H1]; apply negb_true_iff in H1; auto.
 Qed.
+
+(* ================================================================ statements used by Props/C09.v and Props/C08.v *)
+Lemma replenish_spacing_run frac period s ops t0 :
+  0 <= period -> mono t0 (ptimes ops) ->
+  spaced_from period (Z.min (cand s) (t0 + period)) (replenish_times frac period s ops).
+Proof. intros Hp Hm. eapply spacing_gen; eauto; lia. Qed.
+
+Lemma reach_inv1 delay ch ops : inv1 (fold_left (cstep delay) ops (cinit ch)).
+Proof. apply inv1_run, inv1_init. Qed.
+
+Lemma no_send_while_waiting_run delay ch ops op w t :
+  let s := fold_left (cstep delay) ops (cinit ch) in
+  srec s = Some (w, t) ->
+  csent delay s op = [] \/
+  (w = false /\ exists now fail p rest,
+     op = CSend now fail /\ t + delay < now /\ queue s = p :: rest /\ is_slash p = true /\
+     csent delay s op = [p] /\
+     queue (cstep delay s op) = queue s /\ srec (cstep delay s op) = Some (true, now)).
+Proof.
+  intros s Hr.
+  destruct (csent delay s op) as [|p0 l0] eqn:E; [left; reflexivity|]. right.
+  assert (Hne : csent delay s op <> []) by (rewrite E; discriminate).
+  destruct op as [a idv dt | idv | now fail | kind res | acks changes | ];
+    try (exfalso; apply Hne; apply csent_only_send; intros; discriminate).
+  destruct (send_with_record delay s now fail w t (reach_inv1 delay ch ops) Hr Hne)
+    as (Hw & Hlt & p & rest & Hq & Hs & Hsent & Hq' & Hr').
+  split; [assumption|]. exists now, fail, p, rest. rewrite E in Hsent. repeat split; auto.
+Qed.
+
+Lemma fifo_run delay ch ops :
+  wf_acks delay (cinit ch) ops = true ->
+  let g := grun delay (mkG (cinit ch) [] []) ops in
+  NoDup (map p_id (g_enq g)) ->
+  exists consumed,
+    g_enq g = consumed ++ queue (g_s g) /\
+    collapse (g_sent g) = map p_id consumed ++
+                          (match srec (g_s g) with Some _ => firstn 1 (map p_id (queue (g_s g))) | None => [] end).
+Proof.
+  intros Hwf g Hnd.
+  destruct (ginv_run delay ops (mkG (cinit ch) [] []) (ginv_init ch) Hwf Hnd) as (consumed & H1 & H2 & _).
+  exists consumed. split; [exact H1 | exact H2].
+Qed.
+
+Lemma grun_state delay : forall ops g, g_s (grun delay g ops) = fold_left (cstep delay) ops (g_s g).
+Proof.
+  induction ops as [|op t IH]; intros g; cbn [grun fold_left]; [reflexivity|].
+  unfold grun in IH. rewrite IH. reflexivity.
+Qed.
+
+Lemma outstanding_queue_partial delay ch ops a :
+  ordered_clears delay a (cinit ch) ops = true ->
+  let s := fold_left (cstep delay) ops (cinit ch) in
+  queued_for a s <= 1 /\ (queued_for a s = 1 -> In a (outst s)).
+Proof.
+  intros Ho s.
+  assert (Hq : qinv a s).
+  { apply qinv_run; [assumption|]. unfold qinv, queued_for. cbn. lia. }
+  unfold qinv in Hq. destruct (memz a (outst s)) eqn:E.
+  - split; [lia|]. intros _. now apply memz_In.
+  - unfold queued_for in *. split; [lia|]. intros H. lia.
+Qed.
